@@ -155,6 +155,7 @@ type nmodel struct {
 	order []string       // keys in subscription order (witness)
 	gone  map[string]bool
 	left  bool
+	stuck bool // its error channel fired but an unregistration was not processed within waitMax
 }
 
 func TestStepwiseHistories(t *testing.T) {
@@ -220,7 +221,9 @@ func TestStepwiseHistories(t *testing.T) {
 						switch {
 						case nm.gone[key] && got > 0:
 							fk := "delivered-after-unsubscribe"
-							if nm.subs[key] >= 2 {
+							if nm.stuck {
+								fk = "delivered-long-after-error-channel-fired/unregistration-never-processed"
+							} else if nm.subs[key] >= 2 {
 								fk = "delivered-after-unsubscribe-of-duplicate-subscription"
 							}
 							c.Viol(fk, fmt.Sprintf("notifier %d received message #%d under %s although its unregistration for that key had been processed (it had subscribed to the key %d time(s))", nm.n.id, m.Seq, key, nm.subs[key]), wit(w))
@@ -243,7 +246,12 @@ func TestStepwiseHistories(t *testing.T) {
 			}
 		}
 
+		abandoned := false
+	opsLoop:
 		for o := 0; o < 24; o++ {
+			if abandoned {
+				break opsLoop
+			}
 			switch x := rng.Intn(100); {
 			case x < 35:
 				nm := ms[rng.Intn(nn)]
@@ -315,7 +323,40 @@ func TestStepwiseHistories(t *testing.T) {
 				}
 				see(fmt.Sprintf("leave/dup=%v/several-keys=%v", dup, multi))
 				for j := 0; j < len(nm.order); j++ {
-					ev := waitEvent(t, events, "subscribe.unsub.done", fmt.Sprintf("unregistration %d/%d of notifier%d", j+1, len(nm.order), nm.n.id))
+					var ev hookEvent
+					select {
+					case ev = <-events:
+						if ev.name != "subscribe.unsub.done" {
+							t.Fatalf("hook order: waiting for subscribe.unsub.done, got %s key=%s", ev.name, ev.key)
+						}
+					case <-time.After(waitMax):
+						// bounded progress: the error channel fired waitMax ago and the subscription
+						// is still registered. Probe: anything delivered now is delivered "after the
+						// error channel fired".
+						ops = append(ops, fmt.Sprintf("  unregistration %d/%d of notifier%d NOT processed within %s", j+1, len(nm.order), nm.n.id, waitMax))
+						nm.stuck = true
+						for _, key := range nm.order {
+							nm.gone[key] = true
+						}
+						seenK := map[string]bool{}
+						for _, key := range nm.order {
+							if seenK[key] {
+								continue
+							}
+							seenK[key] = true
+							parts := strings.Split(key, "_")
+							param := ""
+							if len(parts) == 3 {
+								param = parts[2]
+							}
+							publish(parts[1], param, false, nm)
+						}
+						run.Stat("unregistrations_never_processed", 1)
+						abandoned = true
+					}
+					if abandoned {
+						break
+					}
 					if nm.subs[ev.key] == 0 {
 						t.Fatalf("unsub.done for key %q which notifier%d never subscribed to", ev.key, nm.n.id)
 					}
@@ -349,6 +390,13 @@ func TestStepwiseHistories(t *testing.T) {
 				}
 				holding.Store(false)
 			}
+		}
+		if abandoned {
+			// hook events of this case can no longer be awaited reliably: stop this test function
+			// here (the violation, if any, has been recorded)
+			holding.Store(false)
+			c.End("abandoned-after-unprocessed-unregistration", true)
+			return
 		}
 		// everybody leaves; wait until every unregistration is processed so that nothing of
 		// this case fires hooks during the next one
